@@ -47,7 +47,10 @@ Definition E_DIRTY_ENGINE : N := 5.       (* model only: engine content used wit
 Record config := mkConfig {
   keep_wal : nat;        (* MachineConfig.KeepWAL as given *)
   keep_backup : nat;     (* MachineConfig.KeepBackup as given *)
-  opt_fsync : bool       (* optimizedFsync *)
+  opt_fsync : bool;      (* optimizedFsync *)
+  (* the code as it is has both set; false = the code before the fix (kept to show what the fix is needed for) *)
+  persist_first : bool;  (* fix b025328: a Ready's entries are saved before they are published when they are committed in the same Ready *)
+  clean_orphans : bool   (* fix c523023: startRaft removes snap files newer than the chosen snapshot that the WAL does not record *)
 }.
 
 (* raftNode.purgeFile: keep <= 1 means the default *)
@@ -454,7 +457,8 @@ Definition step (c : config) (s : state) (ev : event) : result state :=
     match rdp s with
     | RdBegun r false p =>
       (* with overlapping committed entries the save comes before the publication, otherwise after it *)
-      if (overlap r && p) || (negb (overlap r) && (0 <? r_cn r) && negb p) then Err R_GUARD
+      let ov := persist_first c && overlap r in
+      if (ov && p) || (negb ov && (0 <? r_cn r) && negb p) then Err R_GUARD
       else Ok (s <| set_rdp := RdSaving r p false |>)
     | _ => Err R_PC
     end
@@ -494,7 +498,7 @@ Definition step (c : config) (s : state) (ev : event) : result state :=
   | EvRdPublish n lastp =>
     match rdp s with
     | RdBegun r sv false =>
-      if overlap r && negb sv then Err R_GUARD
+      if persist_first c && overlap r && negb sv then Err R_GUARD
       else if negb (n =? r_cn r) || ((0 <? r_cn r) && negb (lastp =? r_clast r)) then Err R_ARG
       else Ok (s <| set_queue := queue s ++ [mkBatch (r_cfirst r) (r_clast r) (r_cn r)] |>
                  <| set_published := if 0 <? r_cn r then r_clast r else published s |>
@@ -667,7 +671,8 @@ Definition step (c : config) (s : state) (ev : event) : result state :=
       match choose_snapshot (segs s) (snapfiles s) with
       | Some j =>
         if i =? j
-        then Ok (s <| set_snapfiles := remove_orphans (segs s) (snapfiles s) (Some j) |> <| set_latest := j |> <| set_rc := RcChosen j |>)
+        then Ok (s <| set_snapfiles := if clean_orphans c then remove_orphans (segs s) (snapfiles s) (Some j) else snapfiles s |>
+                   <| set_latest := j |> <| set_rc := RcChosen j |>)
         else Err R_ARG
       | None => Err R_ARG
       end
@@ -677,7 +682,8 @@ Definition step (c : config) (s : state) (ev : event) : result state :=
     match rc s with
     | RcStart =>
       match choose_snapshot (segs s) (snapfiles s) with
-      | None => Ok (s <| set_snapfiles := remove_orphans (segs s) (snapfiles s) None |> <| set_engine := Some [] |> <| set_rc := RcNone |>)
+      | None => Ok (s <| set_snapfiles := if clean_orphans c then remove_orphans (segs s) (snapfiles s) None else snapfiles s |>
+                      <| set_engine := Some [] |> <| set_rc := RcNone |>)
       | Some _ => Err R_ARG
       end
     | _ => Err R_PC
